@@ -9,6 +9,7 @@ def tcp_overlay(tmpdir):
     return {
         os.path.join(vlib.REPO, "pkg/sleep/zz_verif.go"): os.path.join(HARNESS_OV, "sleep_zz_verif.go.txt"),
         os.path.join(vlib.REPO, "protocol/transport/tcp/zz_verif.go"): os.path.join(HARNESS_OV, "tcp_zz_verif.go.txt"),
+        os.path.join(vlib.REPO, "stack/zz_verif_lookup.go"): os.path.join(HARNESS_OV, "stack_zz_verif.go.txt"),
     }
 
 
